@@ -420,17 +420,11 @@ pub(crate) struct DisplayParsedRegex<'a>(pub(crate) &'a regex::Regex);
 
 impl fmt::Display for DisplayParsedRegex<'_> {
     fn fmt(&self, f: &mut fmt::Formatter<'_>) -> fmt::Result {
-        let regex = self.0.as_str();
-        let mut escaped = false;
-        for c in regex.chars() {
-            if escaped {
-                escaped = false;
-                write!(f, "{c}")?;
-            } else if c == '\\' {
-                escaped = true;
-                write!(f, "{c}")?;
-            } else if c == '/' {
-                // '/' is the only additional escape.
+        // parse_regex_inner turns `\/` into `/` and keeps every other backslash as it is, so
+        // writing every `/` as `\/` is its inverse. This includes a `/` that is already
+        // preceded by a backslash in the regex: `\/` is written as `\\/`.
+        for c in self.0.as_str().chars() {
+            if c == '/' {
                 write!(f, "\\/")?;
             } else {
                 write!(f, "{c}")?;
